@@ -352,11 +352,13 @@ func (m *IntegerPreAgg) addValues(col *record.ColVal, times []int64) {
 
 		v := values[j]
 		j++
-		if agg[minIndex] > v {
+		// the first value always sets min/max and their times, also when it equals the initial extreme
+		first := agg[countIndex] == 0 && j == 1
+		if first || agg[minIndex] > v {
 			agg[minIndex] = v
 			agg[minTIndex] = times[i]
 		}
-		if agg[maxIndex] < v {
+		if first || agg[maxIndex] < v {
 			agg[maxIndex] = v
 			agg[maxTIndex] = times[i]
 		}
@@ -564,11 +566,13 @@ func (m *FloatPreAgg) addValues(col *record.ColVal, times []int64) {
 
 		v := values[j]
 		j++
-		if m.minV > v {
+		// the first value always sets min/max and their times, also when it is beyond +-MaxFloat64
+		first := m.countV == 0 && j == 1 && !math.IsNaN(v)
+		if first || m.minV > v {
 			m.minV = v
 			m.minTime = times[i]
 		}
-		if m.maxV < v {
+		if first || m.maxV < v {
 			m.maxV = v
 			m.maxTime = times[i]
 		}
